@@ -2,9 +2,11 @@
    Proved for every position, depth, TT content, history, poll predicate and stop schedule: at the end of search() the
    transposition table and the whole PV table (hence the reported best move pv_table[0][0]) are exactly those at the moment the
    stop / deadline was first observed by a poll; if no poll observed one, the search was not stopped.
-   `snap` is the ghost snapshot taken by the model of poll_input; nothing reads it. *)
-From Coq Require Import NArith ZArith List.
-From JV Require Import Gen.Consts Model.Chess Model.Eval Model.TT Model.Search Model.SearchChess Proofs.SearchFrame.
+   `snap` is the ghost snapshot taken by the model of poll_input; nothing reads it.
+   Cadence (Proofs/SearchCadence.v): the node counter only moves by +1 right after a poll test at the same count, in negamax and in
+   quiescence, so every multiple of 16,384 below the final count was polled (C09_polls_every_16384_nodes). *)
+From Coq Require Import NArith ZArith List Bool.
+From JV Require Import Gen.Consts Model.Chess Model.Eval Model.TT Model.Search Model.SearchChess Proofs.SearchFrame Proofs.SearchCadence.
 
 Theorem C09_frame : forall pollp stop_at bypass g depth t rt ri,
   match chess_search pollp stop_at bypass g depth t rt ri with
@@ -26,5 +28,30 @@ Proof.
     move_eqb mcap c_promo c_hidx c_cap_score NULL_MOVE pollp stop_at bypass fuel) g d a b e H).
 Qed.
 
+(* cadence: at the end of search(), for every node count n below the final counter at which a poll is due, the trace holds a poll
+   taken at count n -- every poll predicate, stop schedule, position, depth, TT content, history *)
+Theorem C09_cadence : forall pollp stop_at bypass g depth t rt ri,
+  match chess_search pollp stop_at bypass g depth t rt ri with
+  | SDone _ e _ => forall n, (n < nodes e)%N -> pollp n = true -> exists k s, In (EPoll k n s) (trace e)
+  | SFuel => True
+  end.
+Proof. intros. apply search_cadence. Qed.
+
+(* the engine's predicate: every multiple of 16,384 = INPUT_POLL_INTERVAL + 1 nodes (hook polls only add more) *)
+Theorem C09_polls_every_16384_nodes : forall extra stopk bypass g depth t rt ri,
+  match c_search extra stopk bypass g depth t rt ri with
+  | SDone _ e _ => forall j, (16384 * j < nodes e)%N -> exists k s, In (EPoll k (16384 * j) s) (trace e)
+  | SFuel => True
+  end.
+Proof.
+  intros. unfold c_search. pose proof (C09_cadence (c_pollp extra) (c_stop_at stopk) bypass g depth t rt ri) as H.
+  destruct (chess_search _ _ _ _ _ _ _ _) as [outs e s|]; [|exact I].
+  intros j L. apply (H _ L). unfold c_pollp. apply orb_true_iff. left. apply N.eqb_eq.
+  change INPUT_POLL_INTERVAL with (N.ones 14). rewrite N.land_ones. change (2 ^ 14)%N with 16384%N.
+  rewrite N.mul_comm. apply N.mod_mul. discriminate.
+Qed.
+
 Print Assumptions C09_frame.
 Print Assumptions C09_frame_per_call.
+Print Assumptions C09_cadence.
+Print Assumptions C09_polls_every_16384_nodes.
